@@ -42,7 +42,10 @@ ASSUMPTIONS = [
     "(read_nonmem_dataset's docstring accepts them, the NM-TRAN bullet does not)",
     "dropped columns: only their absence from the non-dropped name list and their datainfo drop flag is judged; "
     "whether the frame keeps them as strings is not",
-    "ID columns are generated integer valued and without re-use (pharmpy renumbers re-used ids by design)",
+    "ID columns are generated integer valued and without re-use (pharmpy renumbers re-used ids by design); a third of the "
+    "cases have distinct ids in non-ascending order",
+    "for $PK models pharmpy removes individuals without observation records (tests/nonmem/test_input.py); an observation "
+    "record is MDV = 0 if there is an MDV item, else EVID = 0, else AMT = 0",
     "ACCEPT lists with several filters are judged only when the AND and the OR reading agree",
     "numeric filters on NULL items, text .NE. on NULL items: not judged (doc: filters cannot see NULL)",
     "write/read equality is value equality (NaN == NaN, -0.0 == 0.0, int column == float column); the integer "
@@ -53,7 +56,7 @@ REQUIRED_MONITORS = ["read_model_values", "direct_values", "read_model_error_exp
                      "cells_compared", "filters_evaluated", "roundtrip_write_model", "roundtrip_write_csv",
                      "roundtrip_cells", "form:exp_short", "form:exp_D", "form:lone_sign", "form:len24",
                      "stratum:A", "padding_rows", "synonym_columns", "dropped_columns", "filter_order_critical",
-                     "filter_on_dropped_column"]
+                     "filter_on_dropped_column", "roundtrip_after_transformation", "pk_observation_filter"]
 
 FINDING_KEYS = {
     'B:surplus': 'C13/surplus-columns-keyerror',
@@ -462,7 +465,174 @@ def _cycle(c, base, names, data, how, tag, count):
                 pass
 
 
+def run_filter_transform(rng, idx):
+    """A model READ from files with IGNORE=(..)/ACCEPT=(..) filters whose (already filtered) dataset is then transformed so
+    that rows which passed the filters would now match them (hours -> minutes under IGNORE=(TIME.GT.48)).  The dataset
+    pharmpy writes for the model - through write_model alone or through an explicit write_csv first - read back through the
+    generated code must be the model's dataset: the old filters must not be applied a second time."""
+    import pandas as pd
+    from pharmpy.modeling import read_model, write_csv, write_model
+
+    c = Case()
+    d = _scratch()
+    tag = f"ft{idx}"
+    n_id = rng.randint(2, 4)
+    rows = []
+    for i in range(1, n_id + 1):
+        for k in range(rng.randint(2, 5)):
+            rows.append((i, round(k * rng.choice([2.0, 6.0, 12.0]) + rng.random(), 2), round(rng.uniform(1, 40), 2), round(rng.uniform(40, 90), 1)))
+    col = rng.choice(["TIME", "DV", "WGT"])
+    vals = sorted(r[["ID", "TIME", "DV", "WGT"].index(col)] for r in rows)
+    thr = vals[len(vals) * 2 // 3]
+    op, keep = rng.choice([("IGNORE", "GT"), ("ACCEPT", "LE"), ("IGNORE", "GE")])
+    filt = f"{op}=({col}.{keep}.{thr})"
+    how = rng.choice(["write_model", "write_csv", "write_csv"])
+    factor = rng.choice([60.0, 10.0, 3.5])
+    c.sample = {"kind": "write/read after transformation", "filter": filt, "column": col, "factor": factor, "how": how, "rows": len(rows)}
+    c.fp = fp_of("ft", rows, filt, how, factor)
+    datap, modp, outp, csv2 = d / f"c13_{tag}.csv", d / f"c13_{tag}.mod", d / f"c13_{tag}_out.mod", d / f"c13_{tag}_explicit.csv"
+    try:
+        datap.write_text("ID,TIME,DV,WGT\n" + "".join(",".join(str(v) for v in r) + "\n" for r in rows))
+        modp.write_text(G.render_control_stream("$INPUT ID TIME DV WGT", datap.name, ["IGNORE=@", filt]))
+        try:
+            model = read_model(modp)
+            df = model.dataset
+            if df is None or len(df) == 0 or len(df) == len(rows):
+                c.skipped = "filter-selects-nothing-or-everything"
+                return c
+            df2 = df.copy()
+            df2[col] = df2[col] * factor
+            m2 = model.replace(dataset=df2)
+            if how == "write_csv":
+                m2 = write_csv(m2, path=csv2)
+            write_model(m2, outp, force=True)
+            back = read_model(outp).dataset
+        except CaseTimeout:
+            raise
+        except Exception as e:
+            c.violate(None, f"write/read cycle after a dataset transformation raised {type(e).__name__}: {str(e)[:160]}", dict(c.sample))
+            return c
+        c.hit("roundtrip_after_transformation")
+        c.nontrivial = True
+        if back is None or len(back) != len(df2):
+            c.violate(None, f"{len(df2)} records in the model's dataset, {0 if back is None else len(back)} read back through the "
+                            f"generated code ({how}; the model was read with {filt} and {col} was multiplied by {factor})",
+                      dict(c.sample, code=outp.read_text()[:500]))
+            return c
+        for n in df2.columns:
+            if not all(same(float(a), float(b)) for a, b in zip(df2[n].tolist(), back[n].tolist())):
+                c.violate(None, f"column {n} differs after write/read ({how})", dict(c.sample))
+                return c
+    finally:
+        for p_ in (datap, modp, outp, csv2, outp.with_suffix(".csv"), d / f"c13_{tag}_out.csv"):
+            try:
+                p_.unlink()
+            except OSError:
+                pass
+    return c
+
+
+PK_STREAM = """$PROBLEM individuals without observations
+$INPUT {input}
+$DATA {data} IGNORE=@
+$SUBROUTINE ADVAN1 TRANS2
+$PK
+CL = THETA(1)*EXP(ETA(1))
+V = THETA(2)
+S1 = V
+$ERROR
+Y = F + EPS(1)
+$THETA (0,1) (0,10)
+$OMEGA 0.1
+$SIGMA 0.1
+$ESTIMATION METHOD=1 INTER
+"""
+
+
+def run_pk_observations(rng, idx):
+    """Dataset of a $PK model: pharmpy removes the individuals that have no observation record (as its own tests of
+    read_model describe it).  Which records are observations is decided by the MDV item when there is one, otherwise by
+    EVID, otherwise by AMT = 0 - an individual whose samples all carry MDV = 1 has no observation."""
+    from pharmpy.modeling import read_model
+
+    c = Case()
+    d = _scratch()
+    tag = f"pk{idx}"
+    has_evid = rng.random() < 0.6
+    has_mdv = rng.random() < 0.6
+    cols = ["ID", "TIME", "AMT", "DV"] + (["EVID"] if has_evid else []) + (["MDV"] if has_mdv else [])
+    rows, expect_ids = [], []
+    ids = rng.sample(range(1, 30), rng.randint(2, 5))
+    for i in ids:
+        kind = rng.choice(["normal", "normal", "dose-only", "all-missing", "other-events"])
+        recs = [dict(ID=i, TIME=0.0, AMT=100.0, DV=0.0, EVID=1, MDV=1)]
+        for k in range(1, rng.randint(2, 4)):
+            if kind == "normal":
+                missing = rng.random() < 0.3 and k > 1
+                recs.append(dict(ID=i, TIME=float(k), AMT=0.0, DV=0.0 if missing else round(rng.uniform(1, 9), 2), EVID=0, MDV=1 if missing else 0))
+            elif kind == "all-missing":
+                recs.append(dict(ID=i, TIME=float(k), AMT=0.0, DV=0.0, EVID=0, MDV=1))
+            elif kind == "other-events":
+                recs.append(dict(ID=i, TIME=float(k), AMT=0.0, DV=0.0, EVID=2, MDV=1))
+            else:
+                recs.append(dict(ID=i, TIME=float(k) * 12, AMT=50.0, DV=0.0, EVID=1, MDV=1))
+        if kind == "normal" and all(r["MDV"] == 1 for r in recs):
+            recs.append(dict(ID=i, TIME=9.0, AMT=0.0, DV=3.5, EVID=0, MDV=0))
+        rows += recs
+
+    def is_obs(r):
+        if has_mdv:
+            return r["MDV"] == 0
+        if has_evid:
+            return r["EVID"] == 0
+        return r["AMT"] == 0
+
+    keep_ids = [i for i in ids if any(is_obs(r) for r in rows if r["ID"] == i)]
+    expected = [r for r in rows if r["ID"] in keep_ids]
+    c.sample = {"kind": "individuals without observations", "columns": cols, "ids": ids, "kept": keep_ids,
+                "rows": [[r[k] for k in cols] for r in rows]}
+    c.fp = fp_of("pkobs", cols, c.sample["rows"])
+    if not keep_ids:
+        c.skipped = "no-individual-with-observations"
+        return c
+    datap, modp = d / f"c13_{tag}.csv", d / f"c13_{tag}.mod"
+    try:
+        datap.write_text(",".join(cols) + "\n" + "".join(",".join(str(r[k]) for k in cols) + "\n" for r in rows))
+        modp.write_text(PK_STREAM.format(input=" ".join(cols), data=datap.name))
+        try:
+            df = read_model(modp).dataset
+        except CaseTimeout:
+            raise
+        except Exception as e:
+            c.violate(None, f"reading the dataset of a $PK model raised {type(e).__name__}: {str(e)[:160]}", dict(c.sample))
+            return c
+        c.hit("pk_observation_filter")
+        c.nontrivial = len(keep_ids) < len(ids)
+        got_ids = [int(v) for v in df["ID"].tolist()]
+        if got_ids != [r["ID"] for r in expected]:
+            c.violate(None, f"individuals {sorted(set(got_ids))} read ({len(got_ids)} records); individuals with an observation record "
+                            f"({'MDV = 0' if has_mdv else 'EVID = 0' if has_evid else 'AMT = 0'}): {keep_ids} ({len(expected)} records)",
+                      dict(c.sample))
+            return c
+        for k in cols:
+            if not all(same(float(a), float(r[k])) for a, r in zip(df[k].tolist(), expected)):
+                c.violate(None, f"column {k} differs from the file", dict(c.sample))
+                return c
+    finally:
+        for p_ in (datap, modp):
+            try:
+                p_.unlink()
+            except OSError:
+                pass
+    return c
+
+
 def run_roundtrip(rng, idx):
+    x = rng.random()
+    if x < 0.25:
+        return run_filter_transform(rng, idx)
+    if x < 0.45:
+        return run_pk_observations(rng, idx)
     c = Case()
     r = rng.random()
     if r < 0.25:
